@@ -950,3 +950,51 @@ def rule_fallback_only_when_absent(ctx):
             ctx.violated("FALLBACK", key, f.where(line), "the old-style reader is called after *any* failure of the SD metadata reader, also an I/O error half way through metadata that exists: SDstart succeeds with a wrong picture of the file")
     ctx.floor("FALLBACK", 1, n, "(fallbacks to the old-style reader)")
     return n
+
+
+def rule_closed_stream_replaced(ctx):
+    """STREAMKEPT (C16, C13): HI_CLOSE(file_rec->file) closes the record's stream and sets the field to NULL, whatever the close
+    returns.  Where this is done to a record that other file ids still refer to (under a test of `refcount`) and the result is
+    tested, the arm taken when the close reports an error does not leave before the field holds a stream again: the earlier
+    id is still registered, and the next call through it does fseek(NULL)."""
+    from .codec import ast_walk
+    from .rules_loops import _terminates, seq_of
+    prog = ctx.prog
+    n = 0
+    for f in prog.lib_funcs():
+        ast = f.raw.get("ast")
+        if not ast or not f.rel.endswith("hdf/src/hfile.c"):
+            continue
+        found = []
+
+        def closes_record_stream(e):
+            for c in calls_in(e, True):
+                if c[1] == "hi_close_stdio" and c[3]:
+                    a = strip(c[3][0])
+                    if kind(a) == "addr" and mem_field(a[1]) == ("filerec_t", "file"):
+                        return True
+            return False
+
+        def vis(nd, st):
+            if nd[0] == "if" and nd[1] is not None and closes_record_stream(nd[1]):
+                shared = any(a[0] == "if" and a[1] is not None and any(x[0] == "mem" and x[2] == "refcount" for x in walk(a[1], True)) for a in st)
+                if shared:
+                    found.append(nd)
+            return True
+
+        ast_walk(ast, vis)
+        for k, nd in enumerate(found, 1):
+            n += 1
+            key = "STREAMKEPT:%s#%d" % (f.name, k)
+            line = nd[-3] if isinstance(nd[-3], int) else f.line
+            restored = False
+            for e, _k in seq_of(nd[2]):
+                for x in walk(e, True):
+                    if x[0] == "asg" and mem_field(x[2]) == ("filerec_t", "file"):
+                        restored = True
+            if not _terminates(nd[2]) or restored:
+                ctx.holds("STREAMKEPT", key, f.where(line), "the arm taken when closing the shared record's stream fails gives the record a stream again before it leaves", nontrivial=True)
+            else:
+                ctx.violated("STREAMKEPT", key, f.where(line), "when closing the stream of a record that is still referenced fails, the routine leaves with `file_rec->file` NULL: the file ids that are still out wrap no stream")
+    ctx.floor("STREAMKEPT", 1, n, "(tested closes of a shared file record's stream)")
+    return n
